@@ -15,6 +15,7 @@
 from __future__ import annotations
 
 import ast
+from engine.util import clone_ast
 import copy
 import math
 from typing import Dict, Optional, Tuple
@@ -139,8 +140,8 @@ def check_b(ck, repo):
     if len(br) != 1:
         ck.unknown("C18.b", fi, "if iloc:", "frame/array branch not found")
     else:
-        a = ast.Module(body=copy.deepcopy(br[0].body), type_ignores=[])
-        b = ast.Module(body=copy.deepcopy(br[0].orelse), type_ignores=[])
+        a = ast.Module(body=clone_ast(br[0].body), type_ignores=[])
+        b = ast.Module(body=clone_ast(br[0].orelse), type_ignores=[])
         a = _EraseIloc().visit(a)
         ck.verdict(norm.dump(a, rename=False) == norm.dump(b, rename=False), "C18.b", fi, "if iloc: ... else: ...", "DataFrame and ndarray updates are the same code modulo .iloc", "the DataFrame branch and the ndarray branch of the cell update differ: a frame and its array give different matrices under the same seed")
         # min/max bookkeeping in the array branch (the frame branch is isomorphic)
